@@ -24,6 +24,11 @@ func init() {
 			"first evaluated); a node seen for the first time requests no re-sync.",
 		Run: runC09,
 		Mutants: []Mutant{
+			{Name: "new-session-not-republished", File: "speaker/bgp_controller.go",
+				Old: "\t\t\t\tp.session = s\n\t\t\t\tneedUpdateAds = true",
+				New: "\t\t\t\tp.session = s", Expect: "REPUBLISH"},
+			{Name: "interfaces-gone-stops-at-first-address", File: "speaker/layer2_controller.go",
+				Old: "\t\t\tif c.announcer.DeleteBalancerIP(name, lbIP) {\n\t\t\t\tupdateStatus = true\n\t\t\t}\n\t\t\tcontinue", New: "\t\t\tif c.announcer.DeleteBalancerIP(name, lbIP) {\n\t\t\t\tupdateStatus = true\n\t\t\t}\n\t\t\tbreak", Expect: "REBUILD"},
 			{Name: "invalid-ip-returns-success", File: "speaker/main.go",
 				Old: "\t\t\treturn c.deleteBalancer(l, name, \"invalidIP\")", New: "\t\t\treturn controllers.SyncStateSuccess", Expect: "EXIT-WITHDRAWS"},
 			{Name: "notowner-skips-delete", File: "speaker/main.go",
@@ -62,6 +67,12 @@ func runC09(p *chk.Prog, r *chk.Report) {
 	c09Rebuild(p, r)
 	c09Resync(p, r)
 	c09NodeLabels(p, r)
+	// native mode: what reaches the peer is the difference between the requested and the advertised set, withdrawals
+	// included, whatever the sizes of the two sets (DIFF / FULL-RESEND, shared with C17)
+	c17Diff(p, r)
+	// a session that comes up outside a configuration change (node labels) is offered the current advertisements
+	// (REPUBLISH, shared with C05)
+	c05Republish(p, r)
 }
 
 // c09NodeLabels (shared with C05): the peers' node selectors are evaluated against the labels cached by
@@ -341,6 +352,14 @@ func c09Rebuild(p *chk.Prog, r *chk.Report) {
 					l.ContainsPat("RECV.announcer.DeleteBalancerIP(N, IP)", chk.H("N", name), chk.H("IP", ip))(n)
 			}
 			ok = !loopCanSkip(g, rs, mut)
+			// ... for every address: the loop is not left before the last one
+			if bad := scanLeftEarly(l, rs); bad != nil {
+				if _, isRet := bad.(*ast.ReturnStmt); !isRet {
+					ok = false
+				} else if rr := bad.(*ast.ReturnStmt); len(rr.Results) != 1 || l.IsNilLit(rr.Results[0]) {
+					ok = false // leaving with success before the last address
+				}
+			}
 		}
 		x.Check("layer2.SetBalancer:every-address-established", l.Pos(), ok, "", "an address of the service can be left in whatever state a previous configuration put it (neither announced anew nor withdrawn)")
 	}
